@@ -250,6 +250,8 @@ func Check() *common.Check {
 	return &common.Check{
 		ID:    "C13",
 		Level: "exploration",
+		// every case is recorded before it runs: a fatal error or a hang of the worker is attributed to it
+		CrashSafe: true,
 		Rule: "inputs: every single-token deletion, duplication and replacement (13 tokens, one of every lexical kind) of a spread of 300 (quick) / 2000 (thorough) sqlgen statements; all fragment strings of length <=3 (quick) / <=4 (thorough) over lexgen's 37-fragment lexical alphabet (bad escapes, unterminated literals, lone punctuation, control bytes); " +
 			"nesting beyond the depth limit in 6 constructs; an input one byte over the size limit; each through 10 failing-capable entry points; every input the parser (not the tokenizer) rejects is also run as a history: rejected input, a statement exactly at the nesting limit, the rejected input again - on one Parser object and (first two) inside one recovery call. distinct = distinct input text; non-trivial = at least one entry point rejects the input",
 		Assume: []string{"stage of a failure = whether tokenizer.Tokenize alone rejects the input", "message template = message with quoted/numeric parts removed, first five words before the first colon"},
